@@ -71,4 +71,47 @@ CHECKS = {
         'note': 'Search for the next line break known by contract (re). Message text checked structurally (pieces), not character by character. '
                 'When a run-time function leaves the executor\'s subset a bounded native stand-in (all small inputs) may still refute it; it never counts as proved.',
     },
+    'C10': {
+        'category': 'proof',
+        'technique': 'contract-based deductive verification: heap contract on the class-body fragment, closed-form heap invariant on _finalize_parse_info, visit by contract',
+        'text': 'Class-body fragments (15 member shapes x child flags) are proved to return a FRESH instance whose metadata holds the raw span '
+                '(entry position, exit position) and to write nothing else; _finalize_parse_info is proved, with a closed-form heap invariant, to '
+                'convert every instance yielded by visit exactly once into (_Position(a, line, col), _Position(b-1, line, col)) and to write nothing '
+                'else; line/column tables per C09; wiring: every class implementation records its span whatever its members.',
+        'design_ref': 'DESIGN.md 6 C10',
+        'note': 'Nesting/disjointness/order of spans and independence from abandoned alternatives / memoised reuse / pos are frame consequences argued on paper. '
+                'visit enters by contract (proved in C15 and re-run here).',
+    },
+    'C14': {
+        'category': 'proof',
+        'technique': 'contract-based deductive verification: loop invariants over recursive spec functions on ParsedObject.__eq__/__hash__/_replace/_hash, totality VC for _Metadata.__getattr__',
+        'text': '__eq__ proved equal to "same class and pairwise identical-or-equal fields" (metadata never read); __hash__ and _hash proved to be the '
+                'xor-fold of _hash over fields / items (order-insensitive), with the cache; _replace proved (closed-form dict invariant) to build a new '
+                'object of the same class with exactly the given fields replaced and the metadata contents kept, original untouched; '
+                '_Metadata.__getattr__ proved total on instances whose __dict__ is still empty (copy/pickle protocol); emitted classes and Infix/Prefix/Postfix tied to their field lists.',
+        'design_ref': 'DESIGN.md 6 C14',
+        'note': 'copy/pickle protocol assumed as documented. Tree-level equivalence / eq=>hash laws follow by induction on height given xor AC and foreign == being an equivalence (paper). '
+                'Bounded native value-law stand-in (thorough tier and when a function leaves the subset) is labelled bounded.',
+    },
+    'C15': {
+        'category': 'proof',
+        'technique': 'contract-based deductive verification: loop invariant out.SPEC(rev(stack), visited) = SPEC([root], {}) on the real visit/traverse, recursive spec functions unfolded on demand',
+        'text': 'visit and traverse (extracted from the template on every run) are proved, for all heaps, to emit exactly PRE([root],{}) resp. EVT([root],{}) - '
+                'the statement written as recursive functions over a work list and a visited set: pre-order, left to right, first occurrence only; '
+                'enter/finish pair for every occurrence with its parent, field and child, containers expanded the first time only. Set membership is required to be by id().',
+        'design_ref': 'DESIGN.md 6 C15',
+        'note': 'Heap abstraction (kind/children fixed during the walk, id injective); list-reversal lemmas discharged by cvc5 (native seq.rev); termination not proved; '
+                'the three comprehensions of traverse are matched syntactically against the definition of the child occurrences.',
+    },
+    'C16': {
+        'category': 'proof',
+        'technique': 'contract-based deductive verification: modular recursion with a ghost event trace on _transform, fold invariant and per-iteration frame obligation on the callback chain',
+        'text': '_transform is proved (its own contract assumed at recursive calls) to make one recursive call per field in order and then ONE callback '
+                'application on the node rebuilt from the transformed fields (same object if nothing changed, else a fresh copy of the same class carrying '
+                'the metadata contents of the original); lists rebuilt element-wise, other values pass through. The inner callback chain applies the '
+                'callbacks in order; its only heap write is the metadata copy into a metadata-less replacement object.',
+        'design_ref': 'DESIGN.md 6 C16',
+        'note': 'Known finding: the replacement that receives metadata may be an existing node of the input tree. Whole-tree "exactly once, children first" by induction on height (paper). '
+                '_replace by contract (C14). == between objects modelled as unknown reflexive relation, `is` as identity.',
+    },
 }
